@@ -177,6 +177,8 @@ class ExternalVariableCollector(NodeVisitor):
     def visit_ExceptHandler(self, node):
         if node.name is not None:
             self._bound_in_body(node.name)
+        # The handler's body binds and reads variables like any other block
+        self.generic_visit(node)
 
     def visit_Import(self, node):
         self.visit_ImportFrom(node)
